@@ -620,6 +620,35 @@ func c18Fees(c *Ctx) {
 		return true
 	})
 	c.Check(initOK, "fees", "Complete:starts-at-block-reward", where, ifElse(initOK, "the miner payout starts at cs.BlockReward()", "the reconstructed miner payout does not start at the block reward"))
+	// accumulators of the payout: the field itself, or a local that is initialised from it (or from the block
+	// reward) and stored back into it by a top-level statement
+	accs := map[string]bool{}
+	finalStores := 0
+	for _, st := range fd.Body.List {
+		as, ok := st.(*ast.AssignStmt)
+		if !ok || len(as.Lhs) != 1 || len(as.Rhs) != 1 || as.Tok != token.ASSIGN {
+			continue
+		}
+		l := types.ExprString(as.Lhs[0])
+		if id, isID := as.Rhs[0].(*ast.Ident); isID && strings.HasSuffix(l, ".MinerPayouts[0].Value") {
+			// the local must start from the payout / the block reward
+			ast.Inspect(fd.Body, func(n ast.Node) bool {
+				d, ok := n.(*ast.AssignStmt)
+				if !ok || d.Tok != token.DEFINE || len(d.Lhs) != 1 || len(d.Rhs) != 1 {
+					return true
+				}
+				if li, ok := d.Lhs[0].(*ast.Ident); ok && info.Defs[li] != nil && info.Defs[li] == info.Uses[id] {
+					r := types.ExprString(d.Rhs[0])
+					if strings.HasSuffix(r, ".MinerPayouts[0].Value") || strings.HasSuffix(r, ".BlockReward()") {
+						accs[id.Name] = true
+						finalStores++
+					}
+				}
+				return true
+			})
+		}
+	}
+	isAcc := func(l string) bool { return accs[l] || strings.HasSuffix(l, ".MinerPayouts[0].Value") }
 	// every append of a transaction to the block is accompanied, in the same statement list, by adding its fees
 	n := 0
 	var visit func(list []ast.Stmt)
@@ -657,7 +686,7 @@ func c18Fees(c *Ctx) {
 						continue
 					}
 					l := types.ExprString(as2.Lhs[0])
-					if !strings.HasSuffix(l, ".MinerPayouts[0].Value") {
+					if !isAcc(l) {
 						continue
 					}
 					if types.ExprString(as2.Rhs[0]) == l+".Add("+want+")" {
@@ -691,13 +720,14 @@ func c18Fees(c *Ctx) {
 	ast.Inspect(fd.Body, func(nd ast.Node) bool {
 		if as, ok := nd.(*ast.AssignStmt); ok {
 			for _, l := range as.Lhs {
-				if strings.HasSuffix(types.ExprString(l), ".MinerPayouts[0].Value") {
+				if isAcc(types.ExprString(l)) && as.Tok == token.ASSIGN {
 					writers++
 				}
 			}
 		}
 		return true
 	})
+	writers -= finalStores // storing the local accumulator back is not an update of its own
 	c.Check(n == 2 && writers == 2, "fees", "Complete:exactly-the-appended", where, fmt.Sprintf("%d append sites, %d payout updates: fees are added for exactly the appended transactions", n, writers))
 	c.Min("fees", 4)
 }
@@ -715,7 +745,15 @@ func c18Missing(c *Ctx, ge *GuardEngine) {
 				}
 			}
 		}
-		c.Check(ok, "missing", "Complete:reports-Missing", c.P.Pos(fn.Pos()), ifElse(ok, "Complete's second result is bo.Missing() after filling", "Complete returns "+joinShort(as)+" as the missing list"))
+		how := "Complete's second result is bo.Missing() after filling"
+		if !ok {
+			if why := c18InlineMissing(c); why == "" {
+				ok, how = true, "Complete's second result is a list of exactly the hashes of entries whose two transaction pointers are nil after filling"
+			} else {
+				how = why
+			}
+		}
+		c.Check(ok, "missing", "Complete:reports-Missing", c.P.Pos(fn.Pos()), ifElse(ok, how, "Complete returns "+joinShort(as)+" as the missing list ("+how+")"))
 	} else {
 		c.Undecided("missing", "Complete:reports-Missing", "", "anchor does not resolve")
 	}
@@ -762,4 +800,183 @@ func c18Missing(c *Ctx, ge *GuardEngine) {
 	}
 	c.Min("missing", 3)
 	c.Min("kinds", 4)
+}
+
+// c18InlineMissing: Complete builds the missing list itself: every return yields one local slice, every
+// update of that slice is "m = append(m, E.Hash)" at a place where E.Transaction == nil and E.V2Transaction == nil
+// are both known (inside that test, or in the final else of the != nil chain), after the fill step, and every
+// entry is visited (the append is in the loop over the outline's transactions). "" if so, else the reason.
+func c18InlineMissing(c *Ctx) string {
+	fd, info, ok := c.declOf("gateway.(*V2BlockOutline).Complete")
+	if !ok {
+		return "anchor does not resolve"
+	}
+	var m types.Object
+	bad := ""
+	ast.Inspect(fd.Body, func(n ast.Node) bool {
+		if _, isLit := n.(*ast.FuncLit); isLit {
+			return false
+		}
+		r, ok := n.(*ast.ReturnStmt)
+		if !ok || len(r.Results) != 2 {
+			return true
+		}
+		id, isID := stripParens(r.Results[1]).(*ast.Ident)
+		if !isID || info.Uses[id] == nil {
+			bad = "the second result is not a local list"
+			return true
+		}
+		if m != nil && m != info.Uses[id] {
+			bad = "different lists are returned"
+		}
+		m = info.Uses[id]
+		return true
+	})
+	if bad != "" || m == nil {
+		return ifElse(bad != "", bad, "no two-result return")
+	}
+	appends := 0
+	var walk func(list []ast.Stmt, facts []string, inLoop bool)
+	negate := func(e ast.Expr) []string {
+		be, ok := stripParens(e).(*ast.BinaryExpr)
+		if !ok {
+			return nil
+		}
+		switch be.Op {
+		case token.EQL:
+			return []string{types.ExprString(be.X) + " != " + types.ExprString(be.Y)}
+		case token.NEQ:
+			return []string{types.ExprString(be.X) + " == " + types.ExprString(be.Y)}
+		case token.LOR: // !(a || b) = !a && !b
+			var out []string
+			for _, x := range []ast.Expr{be.X, be.Y} {
+				nx := stripParens(x)
+				if b2, ok := nx.(*ast.BinaryExpr); ok && (b2.Op == token.EQL || b2.Op == token.NEQ) {
+					op := " != "
+					if b2.Op == token.NEQ {
+						op = " == "
+					}
+					out = append(out, types.ExprString(b2.X)+op+types.ExprString(b2.Y))
+				}
+			}
+			return out
+		}
+		return nil
+	}
+	var conj func(e ast.Expr) []string
+	conj = func(e ast.Expr) []string {
+		e = stripParens(e)
+		if be, ok := e.(*ast.BinaryExpr); ok && be.Op == token.LAND {
+			return append(conj(be.X), conj(be.Y)...)
+		}
+		return []string{types.ExprString(e)}
+	}
+	has := func(facts []string, f string) bool {
+		for _, x := range facts {
+			if x == f {
+				return true
+			}
+		}
+		return false
+	}
+	walk = func(list []ast.Stmt, facts []string, inLoop bool) {
+		for _, st := range list {
+			switch x := st.(type) {
+			case *ast.AssignStmt:
+				for i, l := range x.Lhs {
+					id, isID := l.(*ast.Ident)
+					if !isID || (info.Uses[id] != m && info.Defs[id] != m) {
+						continue
+					}
+					if x.Tok == token.DEFINE {
+						continue
+					}
+					call, isCall := x.Rhs[min(i, len(x.Rhs)-1)].(*ast.CallExpr)
+					fn, _ := func() (*ast.Ident, bool) {
+						if !isCall {
+							return nil, false
+						}
+						f, ok := call.Fun.(*ast.Ident)
+						return f, ok
+					}()
+					if fn == nil || fn.Name != "append" || len(call.Args) != 2 || types.ExprString(call.Args[0]) != id.Name {
+						bad = "the list is updated other than by appending one hash"
+						continue
+					}
+					sel, isSel := stripParens(call.Args[1]).(*ast.SelectorExpr)
+					if !isSel || sel.Sel.Name != "Hash" {
+						bad = "something other than an entry's Hash is appended"
+						continue
+					}
+					e := types.ExprString(sel.X)
+					if !has(facts, e+".Transaction == nil") || !has(facts, e+".V2Transaction == nil") {
+						bad = "a hash is appended where " + e + ".Transaction == nil && " + e + ".V2Transaction == nil is not established"
+						continue
+					}
+					if !inLoop {
+						bad = "the hash is appended outside the loop over the outline's entries"
+						continue
+					}
+					appends++
+				}
+				// an assignment to E.Transaction / E.V2Transaction invalidates facts about them
+				for _, l := range x.Lhs {
+					ls := types.ExprString(l)
+					var kept []string
+					for _, f := range facts {
+						if !strings.HasPrefix(f, ls+" ") {
+							kept = append(kept, f)
+						}
+					}
+					facts = kept
+				}
+			case *ast.IfStmt:
+				cur := x
+				acc := append([]string{}, facts...)
+				for cur != nil {
+					walk(cur.Body.List, append(append([]string{}, acc...), conj(cur.Cond)...), inLoop)
+					acc = append(acc, negate(cur.Cond)...)
+					switch e := cur.Else.(type) {
+					case *ast.IfStmt:
+						cur = e
+					case *ast.BlockStmt:
+						walk(e.List, acc, inLoop)
+						cur = nil
+					default:
+						cur = nil
+					}
+				}
+				// the fill step may have assigned the pointers: drop facts about anything assigned inside
+				ast.Inspect(x, func(n ast.Node) bool {
+					if as, ok := n.(*ast.AssignStmt); ok {
+						for _, l := range as.Lhs {
+							ls := types.ExprString(l)
+							var kept []string
+							for _, f := range facts {
+								if !strings.HasPrefix(f, ls+" ") {
+									kept = append(kept, f)
+								}
+							}
+							facts = kept
+						}
+					}
+					return true
+				})
+			case *ast.RangeStmt:
+				walk(x.Body.List, nil, strings.HasSuffix(types.ExprString(x.X), ".Transactions"))
+			case *ast.ForStmt:
+				walk(x.Body.List, nil, false)
+			case *ast.BlockStmt:
+				walk(x.List, facts, inLoop)
+			}
+		}
+	}
+	walk(fd.Body.List, nil, false)
+	if bad != "" {
+		return bad
+	}
+	if appends == 0 {
+		return "the returned list is never appended to"
+	}
+	return ""
 }
